@@ -40,6 +40,9 @@ type Entry[K comparable, V any] struct {
 	policyWeight int64          // Protected by the policy mutex.
 	expire       atomic.Int64   // Protected by the shard mutex.
 	flag         Flag           // Protected by the policy mutex.
+	// Hybrid cache only: the value was written by Set or the loader and is newer than
+	// whatever the secondary cache holds for the key. Written under the shard mutex.
+	dirty atomic.Bool
 }
 
 // used in test only
